@@ -1,6 +1,6 @@
 PROPERTY = "C04"
 LEVEL = "proof"
-LEAN_MODULES = ["CifModel.Props.C04", "CifModel.Model.StoreSchema", "CifModel.Model.StoreContract", "CifModel.Props.ReviewC04",
+LEAN_MODULES = ["CifModel.Props.C04", "CifModel.Model.StoreSchema", "CifModel.Model.StoreContract", "CifModel.Props.ReviewC04", "CifModel.Props.ReviewRC04",
                 "CifModel.Spec.StoreSpec", "CifModel.Lemmas.StoreSpecWorld", "CifModel.Lemmas.StoreSpecSetValue", "CifModel.Lemmas.StoreSpecProps"]
 REQUIRED = ["CifModel.C04_inv_init", "CifModel.C04_inv_sql", "CifModel.C04_inv_step", "CifModel.C04_inv_reachable",
             "CifModel.C04_inv_gives_loop_keys", "CifModel.names_returned_as_created", "CifModel.set_value_all_packets_or_new_scalar",
@@ -12,7 +12,7 @@ REQUIRED = ["CifModel.C04_inv_init", "CifModel.C04_inv_sql", "CifModel.C04_inv_s
             "CifModel.C04_wok_init", "CifModel.C04_wok_step", "CifModel.C04_wok_hist", "CifModel.C04_packets_total", "CifModel.C04_rows_below", "CifModel.C04_iterator_tied", "CifModel.C04_quiet", "CifModel.C04_add_packet_in_contract", "CifModel.C04_set_category_in_contract", "CifModel.C04_get_value_in_wok", "CifModel.C04_remove_item_in_wok", "CifModel.C04_refines", "CifModel.C04_refines_hist", "CifModel.C04_refines_from_start", "CifModel.C04_set_value_in_contract",
             "CifModel.C04_set_value_existing", "CifModel.C04_set_value_cells", "CifModel.C04_set_value_creates_scalar_loop", "CifModel.C04_set_value_joins_scalar_loop",
             "CifModel.C04_set_value_invalid_name", "CifModel.C04_abs_loop_keys", "CifModel.C04_abs_fresh_loop_num", "CifModel.C04_hist_names_returned_as_created",
-            "CifModel.Store.specStep_refines", "CifModel.Store.setValue_spec", "CifModel.Store.absS_tree", "CifModel.Store.Op.covered_all", "CifModel.C04_second_get_packets_refused", "CifModel.remove_last_item_sql",
+            "CifModel.Store.specStep_refines", "CifModel.Store.setValue_spec", "CifModel.Store.absS_tree", "CifModel.C04_second_get_packets_refused", "CifModel.C04_handle_outside_cif", "CifModel.C04_loop_handle_outside_cif", "CifModel.remove_last_item_sql",
             "CifModel.C04_code_set_category", "CifModel.C04_code_add_packet", "CifModel.C04_code_remove_item",
             "CifModel.C04_abs_fuel_suffices", "CifModel.C04_refines_create_frame", "CifModel.C04_create_frame_elsewhere", "CifModel.C04_refines_destroy_container",
             "CifModel.Store.schema_tables_link", "CifModel.Store.schema_triggers_link", "CifModel.Store.schema_sql_link",
@@ -35,8 +35,8 @@ ASSUMPTIONS = [
     "the store's enumeration orders are not fixed by any property: observations are canonical (sorted) dumps",
 ]
 PARTIAL = [
-    "Headline: C04_refines / C04_refines_hist / C04_refines_from_start — for EVERY op (all 31: Op.covered is constantly true, the `covered` "
-    "hypothesis is gone) of an in-contract history (inContract: valid handles, no other work on a CIF while an iterator is open on it, packets "
+    "Headline: C04_refines / C04_refines_hist / C04_refines_from_start — for EVERY op (all 31; the `covered` hypothesis and `Op.covered` itself are "
+    "gone) of an in-contract history (inContract: valid handles, no other work on a CIF while an iterator is open on it, packets "
     "with distinct keys) started in a world satisfying WOk (C04_wok_init / C04_wok_step: Inv, PacketsTotal, RowsBelowAll, ScalarCount, iterators "
     "tied, one iterator per CIF, autocommit outside iterators), the API FUNCTION as `step` runs it does to the documented model with object "
     "identities (absW, Spec/StoreSpec: every CIF as container tree + loops of (category, items, packets); every open iterator as the abstract "
@@ -52,6 +52,21 @@ PARTIAL = [
     "C04_set_value_invalid_name; the last two closed forms take two facts about the documented state as hypotheses (a loop is determined by "
     "(container, number); the loop number handed out next is unused) — C04_abs_loop_keys / C04_abs_fresh_loop_num prove both for absS of every "
     "store satisfying Inv",
+    "DESTROY (review rA, A.9): cif.h says cif_container_destroy 'removes the associated container and all its contents'. In the store only the "
+    "destroyed container's row and the save_frame rows below it cascade; the container rows of NESTED frames, their loops, items and values stay "
+    "behind as garbage no query reaches (the real library does the same: corpus/store/histories.req 'a handle on the inner frame outlives it', "
+    "model = library, so this is not a model defect). Since this review a handle is in contract only if its container is PART OF THE CIF "
+    "(Model/StoreContract Db.inCif: the row exists and climbs through save_frame rows with existing parents to a data block; CH.okB / LH.okB): "
+    "every call through a handle on anything inside a destroyed container is OUT of contract (cif.h: undefined), so C04_refines no longer "
+    "asserts reads / writes with CIF_OK inside a destroyed block (C04_handle_outside_cif, C04_loop_handle_outside_cif; Props/ReviewRC04 `orphan`: out of contract from the first such call). NOT "
+    "done: the state-level documented model (AState, absS, specDestroyContainer) still KEEPS the unreachable rows after a destroy; 'removes "
+    "everything inside it' is carried by the tree view only (AState.tree = abs by absS_tree, C04_refines_destroy_container for the cut), not by "
+    "the AState. Pruning absS to the part inside the CIF needs every one of the 31 spec functions to commute with the restriction "
+    "(not proved)",
+    "closed forms of specSetValue: C04_set_value_existing and C04_set_value_invalid_name are unfoldings of match arms of the definition, "
+    "C04_set_value_cells is a lemma about List.zip / map (the body of ALoop.setColumn; it mentions no model or spec constant): they make the "
+    "spec readable and say nothing about the code — the carrier is C04_refines / setValue_spec; only C04_set_value_creates_scalar_loop and "
+    "C04_set_value_joins_scalar_loop are real (composition => closed form)",
     "the theorems named C04_refines_<op> / C04_code_<op> are statements about single SQL statements or the transaction BODIES of the functions "
     "(addPacketBody, createLoopBody, Db.setAllValues, …), NOT about the API functions: they are the lemmas C04_refines is composed from and are "
     "superseded by it; remove_last_item_removes_loop is about cif_container_remove_item itself (the SQL-level fact is remove_last_item_sql); "
